@@ -28,6 +28,21 @@ def main():
         from harness import nodefile_sim               # noqa
         from harness import worker_sim                 # noqa
         from harness import app_sim                    # noqa
+        if 'bounded_check' in case and 'function' not in case:
+            # a violation found by a bounded stand-in: run that stand-in again on the real
+            # code (both tiers' samples) and look for the same case
+            from harness import run_bounded
+            want = (case.get('case') or {}).get('id')
+            hit = None
+            for tier in ('quick', 'thorough'):
+                r = run_bounded.CHECKS[case['bounded_check']](rp, int(os.environ.get('VERIF_SEED', '0') or 0), tier)
+                hit = next((v for v in r['violations'] if v['id'] == want), None) or \
+                      next((v for v in r['violations'] if v['id'].split(':')[-1] == str(want).split(':')[-1]), None)
+                if hit: break
+            out = dict(confirmed=bool(hit), detail=(hit or {}).get('detail') or 'the bounded check %s does not show case %s' % (case['bounded_check'], want),
+                       input=(hit or {}).get('input'))
+            print(json.dumps(out, default=str))
+            return
         fn = builders.BUILDERS.get(case['function'])
         if fn is None:
             out = dict(confirmed=None,
